@@ -13,7 +13,7 @@ use std::cell::RefCell;
 use std::io::{self, Read};
 use std::rc::Rc;
 
-pub const RULE_C10: &str = "Each run draws from one tape: a symbol file from the record grammar (every record kind, LF/CRLF/CRCRLF/mixed endings, numeric extremes, long names up to 79 000 B, bulk filler to cross the 10/20/40/80/160 KiB buffer thresholds, optional byte-level corruption, last line terminated or not), and a chunk plan made of segments (full reads | 1-byte trickle | uniform 1-64 | geometric | threshold T+-3 for T in {5,10,20,40,80,160} KiB | structural cuts inside CRLF, right after/before a newline, inside a FUNC's sublines | one split at a uniformly drawn offset). The same bytes go through SymbolFile::parse over a ChunkReader and/or SymbolFile::parse_async over a simulated HTTP body (chunk sizes from the plan, 0-k Pending polls per chunk) and are compared with SymbolFile::from_bytes of the whole buffer. NON-TRIVIAL iff the streamed parse saw at least two reads/chunks that ended strictly inside the input and the input has at least two lines. DISTINCT = distinct (content digest, sequence of delivered chunk sizes) among non-trivial runs.";
+pub const RULE_C10: &str = "Each run draws from one tape: a symbol file from the record grammar (every record kind, LF/CRLF/CRCRLF/mixed endings, numeric extremes, long names up to 79 000 B, bulk filler to cross the 10/20/40/80/160 KiB buffer thresholds, optional byte-level corruption, last line terminated or not), and a chunk plan made of segments (full reads | 1-byte trickle | uniform 1-64 | geometric | threshold T+-3 for T in {5,10,20,40,80,160} KiB | structural cuts inside CRLF, right after/before a newline, inside a FUNC's sublines | one split at a uniformly drawn offset); one run in eight instead takes a file of at most 1500 bytes and parses it once per single split point, k = 0..=len, exhaustively (sync; every eighth k also async). The same bytes go through SymbolFile::parse over a ChunkReader and/or SymbolFile::parse_async over a simulated HTTP body (chunk sizes from the plan, 0-k Pending polls per chunk) and are compared with SymbolFile::from_bytes of the whole buffer. NON-TRIVIAL iff the streamed parse saw at least two reads/chunks that ended strictly inside the input and the input has at least two lines. DISTINCT = distinct (content digest, sequence of delivered chunk sizes) among non-trivial runs.";
 
 pub const RULE_C09: &str = "As C10's generator plus: lines of 1 B .. 2 MiB (thresholds 5K/10K/20K/40K/79K/80K/160K/320K/1M/2M +- delta), giant single lines of 2-8 MiB, files ending inside a long line, and reader faults (EINTR, EIO at a tape-chosen read, early clean EOF, one bit flipped / one chunk delivered twice / one chunk dropped; HTTP body reset or clean cut). Oracles per run: no panic; read calls <= 2*len+64; every buffer offered to the reader <= 160 KiB; peak live heap during the parse within a fixed window bound when the retained result is tiny; LoadError only if a reader error was injected and then always; the callback's bytes are a prefix of the delivered stream; with all delivered lines < 79 000 B the outcome equals from_bytes(delivered); an inserted line >= 400 KiB is dropped and the result equals the parse of the file without it. NON-TRIVIAL iff the run exercised buffer growth, recovery, or a fired reader fault. DISTINCT = distinct (content digest, delivered chunk sizes, fault) among non-trivial runs.";
 
@@ -702,7 +702,66 @@ fn split_in_crlf(data: &[u8], sizes: &[u32]) -> bool {
 // ---------------------------------------------------------------------------------------------
 // C10
 
+/// Every single split point of a small file (the quantifier's "exhaustively" clause): one run
+/// parses the same bytes once per split offset, sync and (for a tape-chosen residue class) async.
+fn c10_all_single_splits() -> Outcome {
+    let mut opts = SymOpts::default();
+    opts.max_records = 10;
+    let doc = symgen::gen_doc(&opts);
+    let eol = symgen::draw_eol();
+    let terminated = !chance("c10.splits.unterminated", 1, 4);
+    let (mut bytes, _) = symgen::render(&doc, eol, terminated);
+    if chance("c10.splits.corrupt", 1, 6) {
+        symgen::corrupt(&mut bytes);
+    }
+    bytes.truncate(1500);
+    let data = Rc::new(bytes);
+    let reference = SymbolFile::from_bytes(&data);
+    let async_class = ch("c10.splits.async_class", 8) as usize;
+    let preview: String = data.iter().take(300).flat_map(|&b| std::ascii::escape_default(b)).map(|b| b as char).collect();
+    let info = json!({"scenario": "all single split points", "len": data.len(), "preview": preview, "eol": format!("{:?}", eol), "last_line_terminated": data.last() == Some(&b'\n') || data.is_empty(), "reference": match &reference { Ok(_) => "Ok".to_string(), Err(e) => err_class(e) }});
+    let mut splits = 0u32;
+    let result = (|| -> simkit::Check {
+        for k in 0..=data.len() {
+            let plan = ChunkPlan { segments: vec![(usize::MAX, PlanKind::Cuts(vec![k]))] };
+            let mut runs: Vec<(&'static str, Streamed)> = vec![("sync", parse_sync(data.clone(), plan.clone(), Fault::None))];
+            if k % 8 == async_class {
+                runs.push(("async", parse_async(data.clone(), &plan, BodyFault::None)?));
+            }
+            for (name, s) in &runs {
+                splits += 1;
+                simkit::ensure!(!s.budget_exceeded, "c10.read_budget", "{} parse called read more than 2*len+64 times or kept reading after EOF", name);
+                if let Err(e) = &s.callback_ok {
+                    return Err(Violation::new("c10.callback_not_prefix", format!("{name}: {}", normalise(e))));
+                }
+                if s.result.is_ok() {
+                    simkit::ensure!(s.callback_total == data.len(), "c10.callback_incomplete", "{}: parse succeeded but the callback saw {} the input", name, if s.callback_total < data.len() { "less than" } else { "more than" });
+                }
+                if let Err(e) = same_outcome(&s.result, &reference) {
+                    let tail = if data.last() == Some(&b'\n') || data.is_empty() { "" } else { " [input's last line is not newline-terminated]" };
+                    return Err(Violation::new("c10.outcome_differs", format!("{name}: {e}{tail}")));
+                }
+            }
+        }
+        probe("e1.all_single_splits");
+        if data.windows(2).any(|w| w == b"\r\n") {
+            probe("e1.split_in_crlf");
+        }
+        Ok(())
+    })();
+    simkit::probe_add("e1.split_points_checked", splits as u64);
+    Outcome {
+        result,
+        nontrivial: data.len() >= 8 && data.iter().filter(|&&b| b == b'\n').count() >= 2,
+        key: simkit::rng::mix(&[crate::common::fnv(&data), 0x5117]),
+        info,
+    }
+}
+
 pub fn run_c10() -> Outcome {
+    if chance("c10.scenario.all_splits", 1, 8) {
+        return c10_all_single_splits();
+    }
     let content = draw_content(false);
     let data = Rc::new(content.bytes);
     let plan = draw_plan(&data);
